@@ -34,21 +34,21 @@ COMPONENTS = {
              "xlsxwriter (in_memory forced by the seam)", "zipfile"],
     "stub": ["XLSX peer (encoder)", "SimFS/SimRaw"],
 }
-PROBES_REQUIRED = ["kind:s", "kind:ss", "kind:n-int", "kind:n-float", "kind:b", "kind:d", "kind:t", "kind:date", "gap",
+PROBES_REQUIRED = ["date-system-1904", "other-date-system-read-first", "kind:s", "kind:ss", "kind:n-int", "kind:n-float", "kind:b", "kind:d", "kind:t", "kind:date", "gap",
                    "sheet:2", "sheet:3", "missing-sheet", "via:reader", "via:direct", "writer-round-trip", "write_rows",
                    "ragged-rows", "big-integer"]
-EPOCH = datetime.datetime(1899, 12, 30)
+EPOCHS = {False: datetime.datetime(1899, 12, 30), True: datetime.datetime(1904, 1, 1)}
 
 
-def _serial(moment):
-    delta = moment - EPOCH
+def _serial(moment, date1904=False):
+    delta = moment - EPOCHS[date1904]
     return repr(delta.days + delta.seconds / 86400.0)
 
 
 def draw_cell(rng):
     kind = rng.choice(["s", "s", "ss", "n-int", "n-float", "b", "d", "t", "date", "gap"])
     if kind == "s" or kind == "ss":
-        return [kind, rng.choice(["a", "text", "1.0", "007", " x ", "ü", "TRUE", "2020-01-01", "=1+1"])]
+        return [kind, rng.choice(["a", "text", "1.0", "007", " x ", "ü", "TRUE", "2020-01-01", "=1+1", "release 2.0"])]
     if kind == "n-int":
         value = rng.choice([0, 1, -1, 7, 42, 1000, 2 ** 31, 2 ** 53, -(2 ** 53), 10 ** 15, rng.randrange(-10 ** 9, 10 ** 9),
                             rng.randrange(2 ** 52, 2 ** 53)])
@@ -59,16 +59,32 @@ def draw_cell(rng):
         return ["n", repr(float(value))]
     if kind == "b":
         return ["b", rng.random() < 0.5]
+    # dates: 1904-01-02 .. 9999-12-31 so that both date systems can store them; every 64th draw comes from the
+    # 1900-03-01 .. 1904-01-01 stretch that only the 1900 system can hold (used with that system only)
     if kind == "d":
-        moment = datetime.datetime(1900, 3, 1) + datetime.timedelta(days=rng.randrange(0, 2958400), seconds=rng.randrange(1, 86400))
-        return ["d", _serial(moment), moment.strftime("%Y-%m-%d %H:%M:%S") if moment.year >= 1000 else str(moment)]
+        moment = datetime.datetime(1904, 1, 2) + datetime.timedelta(days=rng.randrange(0, 2957000), seconds=rng.randrange(1, 86400))
+        return ["d", moment.strftime("%Y-%m-%d %H:%M:%S")]
     if kind == "date":
-        moment = datetime.datetime(1900, 3, 1) + datetime.timedelta(days=rng.randrange(0, 2958400))
-        return ["date", _serial(moment), str(moment)]
+        moment = datetime.datetime(1904, 1, 2) + datetime.timedelta(days=rng.randrange(0, 2957000))
+        if rng.random() < 0.15:
+            moment = datetime.datetime(1900, 3, 1) + datetime.timedelta(days=rng.randrange(0, 1400))
+        return ["date", moment.strftime("%Y-%m-%d %H:%M:%S")]
     if kind == "t":
         seconds = rng.randrange(1, 86400)
-        return ["t", repr(seconds / 86400.0), str(datetime.time(seconds // 3600, seconds // 60 % 60, seconds % 60))]
+        return ["t", str(datetime.time(seconds // 3600, seconds // 60 % 60, seconds % 60))]
     return None
+
+
+def peer_cell(cell, date1904):
+    if cell is None:
+        return None
+    kind = cell[0]
+    if kind in ("d", "date"):
+        return (kind, _serial(datetime.datetime.strptime(cell[1], "%Y-%m-%d %H:%M:%S"), date1904))
+    if kind == "t":
+        hours, minutes, seconds = [int(part) for part in cell[1].split(":")]
+        return ("t", repr((hours * 3600 + minutes * 60 + seconds) / 86400.0))
+    return tuple(cell[:2])
 
 
 def generate(seed, tier):
@@ -83,8 +99,17 @@ def generate(seed, tier):
     for _ in range(swarm.randint(1, 3)):
         sheets.append([[draw_cell(rng) for _ in range(rng.randint(0, 5))] for _ in range(rng.randint(0, 5))])
     sheet = swarm.randint(1, 3)
+    date1904 = swarm.random() < 0.3
+    if date1904:
+        # the 1904 date system cannot hold anything before 1904-01-01
+        for table in sheets:
+            for row in table:
+                for index, cell in enumerate(row):
+                    if cell and cell[0] == "date" and cell[1] < "1904-01-02":
+                        row[index] = ["date", "2000-02-29 00:00:00"]
     return {"io": simfs.IoConfig.draw(swarm), "producer": "peer", "sheets": sheets, "sheet": sheet,
-            "via": swarm.choice(["direct", "reader"]), "stored": swarm.random() < 0.3}
+            "via": swarm.choice(["direct", "reader"]), "stored": swarm.random() < 0.3, "date1904": date1904,
+            "other_date_system_first": swarm.random() < 0.3}
 
 
 def expected_text(cell):
@@ -98,7 +123,7 @@ def expected_text(cell):
         return text[:-2] if text.endswith(".0") else text
     if kind == "b":
         return "1" if cell[1] else "0"
-    return cell[2]
+    return cell[1]
 
 
 def execute(scenario):
@@ -146,9 +171,21 @@ def execute(scenario):
 
     sheets = scenario["sheets"]
     sheet = scenario["sheet"]
-    data = xlsx.encode([[[None if cell is None else tuple(cell[:2]) for cell in row] for row in table] for table in sheets],
-                       stored=scenario.get("stored", False))
+    date1904 = bool(scenario.get("date1904"))
+    data = xlsx.encode([[[peer_cell(cell, date1904) for cell in row] for row in table] for table in sheets],
+                       stored=scenario.get("stored", False), date1904=date1904)
     fs.store("book.xlsx", data)
+    if scenario.get("other_date_system_first"):
+        # a workbook using the other date system but the very same serial numbers is read first in this process
+        other = xlsx.encode([[[peer_cell(cell, date1904) for cell in row] for row in table] for table in sheets],
+                            date1904=not date1904)
+        fs.store("other.xlsx", other)
+        with simfs.Seams(fs):
+            for number in range(1, len(sheets) + 1):
+                lib.call(lambda: list(rowio.excel_rows("other.xlsx", number)))
+        result.probe("other-date-system-read-first")
+    if date1904:
+        result.probe("date-system-1904")
     missing = sheet > len(sheets)
     wanted = None
     if not missing:
@@ -262,6 +299,10 @@ def candidates(scenario):
         yield lib.with_value(scenario, ["via"], "direct")
     if scenario.get("stored"):
         yield lib.with_value(scenario, ["stored"], False)
+    if scenario.get("other_date_system_first"):
+        yield lib.with_value(scenario, ["other_date_system_first"], False)
+    if scenario.get("date1904"):
+        yield lib.with_value(scenario, ["date1904"], False)
     for candidate in lib.io_candidates(scenario):
         yield candidate
     for sheet_index, table in enumerate(sheets):
